@@ -810,6 +810,7 @@ func mutate(r *rng, s []byte, alpha []byte) []byte {
 
 func propC08(r *Run) {
 	defer c08RegionOfLocation(r)
+	defer c08BlankLocators(r)
 	thorough := r.tier == "thorough"
 	r.exhaustive = true
 	c08Strand(r)
